@@ -59,7 +59,7 @@ PLAN = {
     },
     "C07": {
         "level": "model_checking",
-        "parts": [part("mc_client", "c07", q=2, t=16), part("mc_client", "c07t", q=16, t=16, tq=200, tt=2400)],
+        "parts": [part("mc_client", "c07", q=2, t=16), part("mc_client", "c07t", q=16, t=16, tq=200, tt=2400), part("mc_client", "c05", q=1, t=1)],
         "assumptions": ["the peer answers requests in arrival order; client threads park before every connection-lock acquisition and every read"],
     },
     "C10": {
